@@ -149,12 +149,14 @@ package auth
 
 //@ func roleImpl.authorizeAnyChannel
 //@   requires role != nil
+//@   modifies userImpl.roles, userImpl.deletedRoles   // frame of the Principal methods called (written only for a user receiver)
 //@   ensures[granted-only-if] isNilErr(result) ==> roleAuthAny(role, base.DefaultScope, base.DefaultCollection, channels)
 //@   ensures[granted-if]      roleAuthAny(role, base.DefaultScope, base.DefaultCollection, channels) ==> isNilErr(result)
 
 // A role is authorised for a channel set iff it sees one of the channels (the wildcard, for an empty set).
 //@ func roleImpl.AuthorizeAnyCollectionChannel
 //@   requires role != nil
+//@   modifies userImpl.roles, userImpl.deletedRoles   // frame inherited from the default-collection helper (never written for a role receiver)
 //@   ensures[granted-iff] isNilErr(result) <==> roleAuthAny(role, scope, collection, channels)
 //@   loop 1 invariant[none-yet] forall c string :: {c in #visited} (c in #visited) ==> !roleSeesColl(role, scope, collection, c)
 
@@ -251,10 +253,12 @@ package auth
 
 //@ func roleImpl.authorizeAllChannels
 //@   requires role != nil
+//@   modifies userImpl.roles, userImpl.deletedRoles   // frame of the Principal methods called (written only for a user receiver)
 //@   ensures[granted-iff] isNilErr(result) <==> (forall c string :: {c in channels} (c in channels) ==> roleSeesColl(role, base.DefaultScope, base.DefaultCollection, c))
 
 //@ func roleImpl.authorizeAllCollectionChannels
 //@   requires role != nil
+//@   modifies userImpl.roles, userImpl.deletedRoles   // frame inherited from the default-collection helper (never written for a role receiver)
 //@   ensures[granted-iff] isNilErr(result) <==> (base.IsDefaultCollection(scope, collection) || (collection in role.CollectionsAccess[scope])) && (forall c string :: {c in channels} (c in channels) ==> roleSeesColl(role, scope, collection, c))
 //@   loop 1 invariant[all-so-far] forbidden == nil <==> (forall c string :: {c in #visited} (c in #visited) ==> roleSeesColl(role, scope, collection, c))
 //@   loop 1 invariant[visited-in] forall c string :: {c in #visited} (c in #visited) ==> (c in channels)
